@@ -33,6 +33,17 @@ CHECKS = {
             'random and block-edge partitions in the default, SMALL_FOOTPRINT (and SM3_SSE in thorough) builds and '
             'compared byte for byte with an independent implementation; thorough adds >2^32-bit messages.',
             '4/C03', TRUSTED),
+    'C06': ('exploration',
+            'libFuzzer (clang ASan + UBSan subset) on nine decoder-family targets seeded with run-time generated valid '
+            'objects; MemorySanitizer replay of the grown corpora; hostile TLS peer (structure-aware mutations of real '
+            'flights through a man-in-the-middle and an interposed tls13_record_encrypt) under ASan with a TLS_CONNECT '
+            'snapshot monitor',
+            'Every decoding / verifying / printing family (ASN.1, certificates, extensions, CRL+request, CMS, key containers, '
+            'signatures+ciphertexts, PEM/base64/hex with caller-declared capacities, TLS records/handshake/extensions) is '
+            'fuzzed into exactly-sized blocks; all three protocols, both roles, receive mutated hello / certificate / key '
+            'exchange flights (repeated extensions, oversized lists, length-field surgery, truncation, junk); any sanitizer '
+            'report, abort, hang or overwritten TLS_CONNECT member is a violation.',
+            '4/C06', TRUSTED),
     'C07': ('exploration',
             'sanitized execution with an executable acceptance predicate transcribed from the property, evaluated on the '
             'attribute model the chains are built from (independent X.509/SM2 builder), interposed clock',
@@ -106,6 +117,36 @@ CHECKS = {
             'thorough) under random update cuts and line re-flows, malformed text and oversized PEM bodies are offered against '
             'declared capacities, and 2,000 (20,000) wrong passwords incl. the 1/256 valid-padding cases are tried.',
             '4/C14', TRUSTED),
+    'C15': ('exploration',
+            'sanitized execution: library-issued objects compared field by field with the supplied values through the '
+            'library decoders and an independent strict DER/X.509 parser; SM2 reference verifier; exact must-fail oracle '
+            'over single-bit neighbourhoods; set model for CRL lookup; loopback HTTP for x509_cert_check_crl',
+            'Certificates, requests and CRLs issued from seeded field generators (all 26 extension builders x 3 '
+            'criticalities, names of 1..8 attributes incl. multi-byte UTF-8, serials 1..20 bytes, validity across 2049/2050, '
+            '0..50 revoked entries, signer IDs of 1..8191 bytes): every field parses back equal, verification holds only '
+            'under the issuing key and ID (10 wrong-ID variants), every executed single-bit change of TBS / algorithm '
+            'identifiers / signature is refused (~600 stratified per object in quick, complete neighbourhoods in thorough), '
+            'CRL lookup agrees with a set model.',
+            '4/C15', TRUSTED),
+    'C16': ('exploration',
+            'sanitized execution of the top-level CMS interfaces with exact-size guarded buffers; round trip plus an '
+            'independent Python CMS reader (SM2/SM3/SM4 references); exhaustive / stratified bit-flip and structural '
+            'must-fail oracles',
+            '1..4 signers and recipients, five key provenances (set, generate, DER PKCS#8, DER ECPrivateKey, PEM), six '
+            'content types, content 0..64 KiB: every built message round-trips through cms_verify / cms_deenvelop / '
+            'cms_decrypt / cms_deenvelop_and_verify and through the reference reader; non-recipient keys fail; every '
+            'single-bit change of content, signature and encrypted key is refused; zero-signer and no-certificate variants '
+            'never verify. IV / ciphertext changes of EnvelopedData and EncryptedData are accepted (recorded open finding).',
+            '4/C16', TRUSTED),
+    'C17': ('exploration',
+            'sanitized execution of every exported SM9 field / tower / group / hash-to-range function against an '
+            'independent Python model (self-tested on the GM/T 0044 annex examples); pairing laws and values; protocol '
+            'round trips with must-fail neighbourhoods',
+            'Boundary-crossed and random in-domain operands for Fp, Fp2, Fp4, Fp12, G1, G2; every scalar within 1024 of 0, N '
+            'and 2^256 in G1 and G2; bilinearity, additivity, order, non-degeneracy and direct equality with the Python '
+            'R-ate pairing; sign / encrypt / key exchange against the model; every single bit of DER signatures and '
+            'ciphertexts, other identities and other messages must be refused.',
+            '4/C17', TRUSTED),
     'C18': ('fault_enumeration',
             'interposed getentropy (per-thread deterministic streams, draw log, injected failure at draw i) and virtual '
             'clock in the sanitized process; outputs compared across streams and runs; send() calls after the failed draw '
